@@ -27,7 +27,7 @@ def setup(ctx):
 
 def gen_case(ctx, i):
     rng = ctx.rng
-    content = C.gen_content(rng, p_data=0.3, p_readouts=0.5)
+    content = C.gen_content(rng, p_data=0.3, p_readouts=0.5, p_badflux=0.08)
     case = {"content": content, "queries": cc.standard_queries(rng, content, flags=True),
             "decl_seed": rng.randrange(1 << 30)}
     if content.get("readouts") and len(content["readouts"]) >= 2 and rng.random() < 0.15:
